@@ -18,7 +18,7 @@ import time
 
 VERIF = os.path.dirname(os.path.dirname(os.path.abspath(__file__)))
 REPO = os.environ.get("VERIF_REPO", "/repo")
-CACHE = os.path.join(VERIF, ".cache")
+CACHE = os.environ.get("VERIF_CACHE_DIR") or os.path.join(VERIF, ".cache")
 TOOLS = os.path.join(VERIF, "tools", "target")
 MIRFACTS = os.path.join(TOOLS, "mirfacts", "debug", "mirfacts")
 GRAM = os.path.join(TOOLS, "gram", "debug", "gram")
